@@ -51,6 +51,13 @@ def r15_1(ctx):
          ctx.bad(construct, "the decode handler does not write a reply and continue", run.loc(loads[0])))
     else:
         ctx.bad(construct, "a malformed line raises out of the request loop", run.loc(loads[0]))
+    # json.loads() on an arbitrary line raises more than JSONDecodeError: a plain ValueError for a number beyond the
+    # integer-string conversion limit, RecursionError for deeply nested brackets
+    for exc, what in (("ValueError", "a number with more than 4300 digits (plain ValueError, not JSONDecodeError)"),
+                      ("RecursionError", "a line of many nested brackets")):
+        construct = f"run_server/the decode handler also covers {exc}"
+        (ctx.ok(construct, run.loc(loads[0])) if ft.handled(loads[0], exc) else
+         ctx.bad(construct, f"{what} makes json.loads() raise {exc}, which the handler does not catch: the server dies without a reply", run.loc(loads[0])))
     seen: Set[Tuple[str, str, str]] = set()
     n = 0
     for s in ta.sinks:
